@@ -6,7 +6,7 @@ from vlib.core import Infra
 MC = """SPECIFICATION Spec
 CONSTANTS
   Names = {%s}
-INVARIANTS NoDup PostIsReverseOfPre
+INVARIANTS NoDup PostIsReverseOfPre FlagIsTheObjects
 PROPERTY RemoveExact
 CHECK_DEADLOCK FALSE
 """
@@ -19,7 +19,7 @@ CHECK_DEADLOCK FALSE
 """
 TRACE = """SPECIFICATION %s
 CONSTANTS
-  Names = {"P1"}
+  Names = {"P1", "P2", "P3", "P4", "P5", "P6", "null"}
 %s
 CHECK_DEADLOCK FALSE
 """
@@ -50,9 +50,9 @@ def run_legs(ctx, nontrivial):
     ctx.notes["plugin_chain_model"] = {"distinct_states": r.distinct}
     tcfg, pcfg = cfgs(ctx)
     execs = []
-    g = ctx.tlc("Gen_PluginChain", ctx.write_cfg("Gen_PluginChain_bfs", GEN % ('"P1", "P2", "P3"', 4 if ctx.quick else 5)), workers=8, timeout=900)
+    g = ctx.tlc("Gen_PluginChain", ctx.write_cfg("Gen_PluginChain_bfs", GEN % ('"P1", "P2", "P3"', 3 if ctx.quick else 4)), workers=8, timeout=900)
     execs += [[[s["op"], s["name"]] for s in h] for h in g.beh]
-    g = ctx.tlc("Gen_PluginChain", ctx.write_cfg("Gen_PluginChain_sim", GEN % (names5 + ', "P6", "null"', 16)), workers=8, simulate=60 if ctx.quick else 600,
+    g = ctx.tlc("Gen_PluginChain", ctx.write_cfg("Gen_PluginChain_sim", GEN % (names5 + ', "P6", "null"', 16)), workers=8, simulate=120 if ctx.quick else 1500,
                 depth=20, timeout=900)
     execs += [[[s["op"], s["name"]] for s in h] for h in g.beh]
     if not execs:
